@@ -6,6 +6,8 @@ The concrete primitives are exercised by the correspondence run (Lean HMAC-SHA51
 RIPEMD-160 / secp256k1 model / P-256 and Ed25519 oracles against the real packages).
 -/
 import Iota.Proofs.Slip10
+import Iota.Proofs.Slip10Spec
+import Iota.Proofs.Slip10NonVacuity
 
 namespace Iota.Props.C02
 open Iota.Slip10 Iota.Proofs.Slip10
@@ -80,7 +82,62 @@ theorem fingerprint_spec (hash160 : Bytes → Bytes) (e : ExtKey κ) :
       | some p => (hash160 (c.bytes (c.pub p))).take 4 := by
   unfold fingerprint; cases e.parent <;> rfl
 
-/-! ### non-vacuity -/
+/-! ### against SLIP-0010 written the way the standard is written (`Iota/Spec/Slip10.lean`)
+The specification has its own serialisations (`parse256`, `ser32`, `ser256`, `serP`), the candidate sequences
+`masterI`, `childI` as functions of the retry number, "first valid candidate" (`IsFirst`), the validity
+predicates of the standard, and path derivation as an inductive relation; it does not import the model.
+Proofs: `Iota/Proofs/Slip10Spec.lean`. -/
+section Spec
+open Iota.Spec.Slip10 (IL IR masterI childI XPriv PathKeyWithin edPathKey)
+open Iota.Proofs.Slip10Spec
+
+/-- **the child retry loop returns exactly the first valid candidate** of the sequence
+I_0 = HMAC(c_par, data), I_{n+1} = HMAC(c_par, 0x01 ‖ I_R(n) ‖ ser32 i) — for every curve value and all fuel. -/
+theorem child_is_first_valid (e : ExtKey κ) (i fuel : Nat) (data : Bytes) (e' : ExtKey κ) :
+    childLoop hmac c e i fuel (hmac e.chainCode data) = .ok e' ↔
+      ∃ j, j < fuel ∧
+        (∀ m, m < j → c.shift e.key (IL (childI hmac e.chainCode data i m)) = .error .invalidKey) ∧
+        c.shift e.key (IL (childI hmac e.chainCode data i j)) = .ok e'.key ∧
+        e'.chainCode = IR (childI hmac e.chainCode data i j) ∧ e'.parent = some e.key :=
+  childLoop_ok_iff hmac c e i fuel data e'
+
+/-- a curve error other than ErrInvalidKey is returned exactly when it is the verdict on a candidate all of whose
+predecessors were rejected with ErrInvalidKey (at ANY retry, not only the first); same for the master loop. -/
+theorem permanent_error_at_any_candidate (e : ExtKey κ) (i fuel : Nat) (data S : Bytes) (x : Nat) :
+    (childLoop hmac c e i fuel (hmac e.chainCode data) = .error (.curve x) ↔
+      ∃ j, j < fuel ∧
+        (∀ m, m < j → c.shift e.key (IL (childI hmac e.chainCode data i m)) = .error .invalidKey) ∧
+        c.shift e.key (IL (childI hmac e.chainCode data i j)) = .error (.other x)) ∧
+    (masterLoop hmac c fuel S = .error (.curve x) ↔
+      ∃ j, j < fuel ∧
+        (∀ m, m < j → c.newPrivateKey (IL (masterI hmac c.hmacKey S m)) = .error .invalidKey) ∧
+        c.newPrivateKey (IL (masterI hmac c.hmacKey S j)) = .error (.other x)) :=
+  ⟨childLoop_curve_iff hmac c e i fuel data x, masterLoop_curve_iff hmac c fuel S x⟩
+
+end Spec
+
+/-- **secp256k1 / P-256 (the `elliptic` package over a lawful curve): `DeriveKeyFromPath` = the specification's
+path derivation** — private key, chain code, fingerprint (and, through `Repr.bytes`, the serialisations
+ser256(k) and serP(point k)) are the ones SLIP-0010 prescribes, with every key found within `fuel` candidates. -/
+theorem derive_matches_spec_weierstrass {Pt : Type} [AddCommGroup Pt] (hmac : Bytes → Bytes → Bytes)
+    (w : WCurve Pt) (g : Pt) (hk : Bytes) (hw : Iota.Proofs.Slip10Shift.LawfulW w g) (hn : w.n < 256 ^ 40)
+    (hash160 : Bytes → Bytes) (fuel : Nat) (S : Bytes) (path : List Nat) (z : Iota.Spec.Slip10.XPriv) :
+    (∃ e, deriveKeyFromPath hmac (wCurve w hk) fuel S path = .ok e ∧ Iota.Proofs.Slip10Spec.Repr w hk hash160 e z) ↔
+      Iota.Spec.Slip10.PathKeyWithin hmac (Iota.Proofs.Slip10Spec.ecOf w g hk) hash160 fuel S path z :=
+  Iota.Proofs.Slip10Spec.deriveKeyFromPath_w_iff hmac w g hk hw hn hash160 fuel S path z
+
+/-- **ed25519**: on all-hardened paths the model returns the specification's key, chain code and fingerprint; as soon as
+an index is not hardened it returns ErrNotHardened. -/
+theorem derive_matches_spec_ed25519 (hmac : Bytes → Bytes → Bytes) (edPublic : Bytes → Bytes)
+    (hpub : ∀ s, (edPublic s).length = 32) (hash160 : Bytes → Bytes) (fuel : Nat) (S : Bytes) (path : List Nat) :
+    match Iota.Spec.Slip10.edPathKey hmac edPublic hash160 S path with
+    | some (k, c, fp) => ∃ e, deriveKeyFromPath hmac (edCurve edPublic) (fuel + 1) S path = .ok e ∧
+        e.key = .seed k ∧ e.chainCode = c ∧ fingerprint (edCurve edPublic) hash160 e = fp
+    | none => deriveKeyFromPath hmac (edCurve edPublic) (fuel + 1) S path = .error .notHardened :=
+  Iota.Proofs.Slip10Spec.ed_deriveKeyFromPath hmac edPublic hpub hash160 fuel S path
+
+/-! ### non-vacuity (see also `Iota/Proofs/Slip10NonVacuity.lean`: a toy curve on ℤ/7 whose validity predicate rejects
+candidates, run through both loops by `decide`: master and child keys found at candidate 1 after a rejection at 0) -/
 example : ser32 (2 ^ 31 + 44) = [0x80, 0, 0, 44] := by decide
 example : hardened = 2147483648 := rfl
 
